@@ -15,6 +15,7 @@ import (
 	"io"
 	"runtime"
 	"sync"
+	"sync/atomic"
 	"time"
 
 	cose "github.com/veraison/go-cose"
@@ -195,6 +196,29 @@ func (w *concWorld) run(t int, op string) ([]byte, string) {
 			return nil, errClass(err)
 		}
 		return nil, errClass(own.Verify(nil, w.bverifier))
+	case "verifyfailown":
+		// a COSE_Sign of the thread's own whose first signature is wrong: once Verify has returned (with an error) the message is the
+		// caller's again - it repairs the signature, verifies, and damages it again
+		own := &cose.SignMessage{Headers: cose.Headers{Protected: cose.ProtectedHeader{int64(3): int64(0)}}, Payload: []byte{byte(t), 7, 7},
+			Signatures: []*cose.Signature{{Headers: cose.Headers{Protected: cose.ProtectedHeader{int64(1): cose.AlgorithmES256}}},
+				{Headers: cose.Headers{Protected: cose.ProtectedHeader{int64(1): cose.AlgorithmES256}}},
+				{Headers: cose.Headers{Protected: cose.ProtectedHeader{int64(1): cose.AlgorithmES256}}}}}
+		if err := own.Sign(rand.Reader, nil, w.bsigner, w.bsigner, w.bsigner); err != nil {
+			return nil, errClass(err)
+		}
+		for round := 0; round < 3; round++ {
+			own.Signatures[0].Signature[5] ^= 0x40
+			if err := own.Verify(nil, w.bverifier, w.bverifier, w.bverifier); err == nil {
+				return nil, "damaged-signature-accepted"
+			}
+			own.Signatures[0].Signature[5] ^= 0x40 // the call has returned: the caller writes to its message
+			own.Payload[1]++
+			own.Payload[1]--
+			if err := own.Verify(nil, w.bverifier, w.bverifier, w.bverifier); err != nil {
+				return nil, errClass(err)
+			}
+		}
+		return nil, "ok"
 	case "sign":
 		own := &cose.Sign1Message{Headers: cose.Headers{Protected: cose.ProtectedHeader{int64(1): int64(-7), int64(4): []byte{byte(t)}}}, Payload: []byte{byte(t), 1, 2}}
 		if err := own.Sign(nil, nil, w.signer); err != nil {
@@ -215,8 +239,13 @@ func (w *concWorld) snapshot() string {
 	return hex.EncodeToString(h[:8])
 }
 
+var concTimeouts int32 // schedules that did not complete in this process; after a few, the rest is not attempted
+
 func init() {
 	execs["conc"] = func(c J) J {
+		if atomic.LoadInt32(&concTimeouts) >= 3 {
+			return J{"op": "conc", "res": "skipped", "sched": c["sched"], "progs": c["progs"], "expect": c["expect"]}
+		}
 		prev := runtime.GOMAXPROCS(1)
 		defer runtime.GOMAXPROCS(prev)
 		n := num(c["nthreads"])
@@ -262,14 +291,19 @@ func init() {
 			}
 		}
 		opIdx := make([]int, n+1)
-		timeout := time.After(180 * time.Second)
+		timeout := time.After(30 * time.Second)
 		for _, s := range c["sched"].([]any) {
 			st := s.([]any)
 			t := num(st[0])
 			switch str(st[1]) {
 			case "call":
 				g.caller = t
-				start[t] <- struct{}{}
+				select {
+				case start[t] <- struct{}{}:
+				case <-timeout:
+					atomic.AddInt32(&concTimeouts, 1)
+					return J{"op": "conc", "res": "timeout", "sched": c["sched"], "progs": c["progs"], "expect": c["expect"]}
+				}
 				select {
 				case tt := <-g.reached:
 					if tt != t {
@@ -280,6 +314,7 @@ func init() {
 					finish(t, r, opIdx[t])
 					opIdx[t]++
 				case <-timeout:
+					atomic.AddInt32(&concTimeouts, 1)
 					return J{"op": "conc", "res": "timeout", "sched": c["sched"], "progs": c["progs"], "expect": c["expect"]}
 				}
 			case "resume":
@@ -289,21 +324,34 @@ func init() {
 				}
 				blocked[t] = false
 				g.caller = t
-				g.resume[t] <- struct{}{}
 				select {
-				case r := <-done[t]:
-					finish(t, r, opIdx[t])
-					opIdx[t]++
-				case tt := <-g.reached: // a second callback of the same call (COSE_Sign with two verifiers)
-					_ = tt
-					blocked[t] = true
-					g.resume[t] <- struct{}{}
-					blocked[t] = false
-					r := <-done[t]
-					finish(t, r, opIdx[t])
-					opIdx[t]++
+				case g.resume[t] <- struct{}{}:
 				case <-timeout:
+					atomic.AddInt32(&concTimeouts, 1)
 					return J{"op": "conc", "res": "timeout", "sched": c["sched"], "progs": c["progs"], "expect": c["expect"]}
+				}
+				// further callbacks of the same call (COSE_Sign with two verifiers, one after the other or at the same time) pass at once
+			waitDone:
+				for {
+					select {
+					case r := <-done[t]:
+						finish(t, r, opIdx[t])
+						opIdx[t]++
+						break waitDone
+					case tt := <-g.reached:
+						if tt != t {
+							notes = append(notes, fmt.Sprintf("callback attributed to thread %d while %d was running", tt, t))
+						}
+						select {
+						case g.resume[tt] <- struct{}{}:
+						case <-timeout:
+							atomic.AddInt32(&concTimeouts, 1)
+							return J{"op": "conc", "res": "timeout", "sched": c["sched"], "progs": c["progs"], "expect": c["expect"]}
+						}
+					case <-timeout:
+						atomic.AddInt32(&concTimeouts, 1)
+						return J{"op": "conc", "res": "timeout", "sched": c["sched"], "progs": c["progs"], "expect": c["expect"]}
+					}
 				}
 			}
 			snaps = append(snaps, w.snapshot())
